@@ -113,7 +113,7 @@ func vPick(d *Document, name string, typ int, val int) vOp {
 		tr := root.GetTree("tree")
 		sizes, ok := vTreeParas(tr.ToXML())
 		zzvsym.Assume(ok) // other shapes are outside the bound, not violations
-		op.k = zzvsym.IntRange(name+"_k", 0, 4)
+		op.k = zzvsym.IntRange(name+"_k", 0, 5)
 		switch op.k {
 		case 0: // insert text inside the first paragraph
 			zzvsym.Assume(len(sizes) > 0)
@@ -133,7 +133,7 @@ func vPick(d *Document, name string, typ int, val int) vOp {
 				op.i += sz
 			}
 			op.j = op.i + sizes[j]
-		case 4: // style the first paragraph
+		case 4, 5: // style / remove the style of the first paragraph
 			zzvsym.Assume(len(sizes) > 0)
 		}
 	}
@@ -244,6 +244,8 @@ func vApplyIn(root *json.Object, op vOp) {
 			tr.Edit(op.i, op.j, nil, 0)
 		case 4: // style the first paragraph
 			tr.Style(0, 1, map[string]string{"b": string(rune('0' + val%10))})
+		case 5: // remove that style
+			tr.RemoveStyle(0, 1, []string{"b"})
 		}
 	}
 }
